@@ -28,6 +28,13 @@ CLAIMS["C19"] = (
     "DESIGN.md §3 C19",
 )
 
+CLAIMS["C04"] = (
+    "path rules on SSA CFGs with callee summaries (end-of-stream forwarding, reader/scanner termination, flush-after-write), channel-send classification, call-graph reachability (stdout, shared globals), lock-region check, AST classification of map ranges",
+    "Decides the protocol obligations termination and schedule-independence rest on, for every verb, reader and scanner: end-of-stream forwarded on every path of all RecordTransformer implementations (through function-valued fields); readers end with exactly one marker; scanners send the pending batch then close once; every bool back-channel send is non-blocking; no stdout write reachable from reader/verb goroutines; flush follows every write under FlushOnEveryRecord; every package-level variable written from pipeline goroutines is locked; one seeded randomness owner; no order-sensitive iteration over built-in maps; reader state shadowed per batch is written back. It does not decide byte-equality of outputs across batch sizes or timing.",
+    "Trusts go/ssa, the VTA call graph over-approximation for reachability, and Go channel semantics (send on a full buffered channel blocks; select with default does not). Frozen exceptions with reasons in checker/c04.go.",
+    "DESIGN.md §3 C04",
+)
+
 NOT_APPLICABLE = {
     "C13": "Join pairing, ordering and unpaired accounting are relational identities over run-time key values and bucket contents; no clause is a shape fact visible to static analysis (the shared protocol facts are reported under C04/C10/C17).",
 }
